@@ -5,7 +5,7 @@ import sys
 
 from vlib import docs as D
 from vlib import gt
-from vlib.par import pmap
+from vlib.par import pmap, timeout_failure
 
 PROPERTY = 'C02'
 LEVEL = 'other'
@@ -117,6 +117,10 @@ def _classify_zero(a, b):
     return 'c02-zero-cost:unexplained'
 
 
+def _pair_timeout(job, seconds):
+    return D.data_equal(job[0], job[1]), timeout_failure('C02')(job, seconds)
+
+
 def _check_pair(job):
     a, b, opt, cli = job
     fails = []
@@ -176,7 +180,7 @@ def bounded(tier, seed, repo_root):
     for _ in range(cli_n):
         a, b = rnd.choice(pairs)
         jobs.append((a, b, rnd.choice(gt.OPTION_COMBOS), True))
-    res = pmap(_check_pair, jobs, repo_root)
+    res = pmap(_check_pair, jobs, repo_root, job_timeout=60, on_timeout=_pair_timeout)
     failures = [f for _, fs in res for f in fs]
     n_unequal = sum(1 for eq, _ in res if not eq)
     return [{
